@@ -239,6 +239,13 @@ def getattr_units(names, attr):
             s = f'{n}: {a}'
             if s not in out:
                 out.append(s)
+        if attr == 'ASSUMPTIONS':
+            w = [f'{f}:{p}' for f, p in getattr(u, 'WATCH', [])]
+            if w:
+                out.append(f'{n}: watched (contract ASSUMED, text fingerprinted at registration; a change makes this check answer undecided): ' + ', '.join(w))
+            w = [f'{f}:{p}' for f, p in getattr(u, 'UNCOVERED', [])]
+            if w:
+                out.append(f'{n}: NOT under contract although part of the mechanism of the property (fingerprinted at registration; a change makes this check answer undecided): ' + ', '.join(w))
     return out
 
 
